@@ -1,6 +1,7 @@
 """C04 — parameter transforms are bijections with exact log-Jacobians."""
 import json
 import math
+import re
 
 import numpy as np
 
@@ -238,3 +239,61 @@ def run(ctx):
         ctx.oblig(f"correspondence:IR-vs-impl:{k}", ok, dd)
     if not tie:
         ctx.oblig("correspondence:IR-vs-impl", False, "no IR evaluated")
+    periodic_binary64_tie(ctx)
+
+
+def periodic_binary64_tie(ctx):
+    """Model/PeriodicF.v (binary64 wrap on |x - lower| < width) against PeriodicTransform.forward, bit for bit, in the three
+    namespaces; the refutation theorem C04_periodic_range_binary64_refuted is about that model."""
+    from aspire.transforms import PeriodicTransform
+    NS = nsutil.namespaces()
+    rngn = np.random.default_rng(ctx.rng.randrange(1 << 30))
+    rows = []          # (x, lo, up, expected, ns)
+    ncase = ctx.scale(120, 1500)
+    for i in range(ncase):
+        wscale = 10.0 ** ctx.rng.choice([-6, -2, 0, 0, 1, 5])
+        lo = ctx.rng.choice([0.0, 0.0, -np.pi, 1.0, -1e3, 0.1]) * (1 if wscale >= 1e-2 else 0)
+        up = lo + (2 * np.pi if ctx.rng.random() < 0.4 else wscale * ctx.rng.uniform(0.5, 2.0))
+        w = up - lo
+        style = ctx.rng.choice(["inside", "below", "tiny-below", "tiny-above-upper", "edge"])
+        if style == "inside":
+            x = lo + ctx.rng.uniform(0, 1) * w
+        elif style == "below":
+            x = lo - ctx.rng.uniform(0, 0.999) * w
+        elif style == "tiny-below":
+            x = lo - abs(w) * 10.0 ** ctx.rng.uniform(-20, -14)
+        elif style == "tiny-above-upper":
+            x = float(np.nextafter(lo + w * (1 - 1e-16), np.inf))
+        else:
+            x = ctx.rng.choice([lo, float(np.nextafter(lo, -np.inf)), float(np.nextafter(lo, np.inf)), -0.0 + lo])
+        if not (abs(x - lo) < w and w > 0):
+            continue
+        nsname = ctx.rng.choice(["numpy", "numpy", "torch", "jax"])
+        xp, dt = NS[nsname], nsutil.native_dtype(nsname, "float64")
+        T = PeriodicTransform(np.asarray([lo]), np.asarray([up]), xp=xp, dtype=dt)
+        y, _ = T.forward(xp.asarray(np.asarray([[x]]), dtype=dt))
+        yv = float(np.asarray(nsutil.to_list(y), float).reshape(-1)[0])
+        lo_, up_ = float(np.asarray(nsutil.to_list(T.lower), float).reshape(-1)[0]), float(np.asarray(nsutil.to_list(T.upper), float).reshape(-1)[0])
+        rows.append((x, lo_, up_, yv, nsname, style))
+        ctx.count(("periodic-f64", x, lo_, up_, nsname), True, kind=f"periodic-binary64/{nsname}/{style}")
+    lit = "; ".join(f"({common.fhex(x)}, {common.fhex(lo)}, {common.fhex(up)}, {common.fhex(e)})" for x, lo, up, e, _, _ in rows)
+    text = ("From Coq Require Import Floats.PrimFloat List Bool.\nImport ListNotations.\nFrom AV Require Import Model.PeriodicF.\n"
+            f"Definition cases : list (float * float * float * float) := [{lit}].\n"
+            "Definition agree (c : float * float * float * float) : bool := let '(x, lo, up, e) := c in fwrap_dom x lo up && (PrimFloat.eqb (fwrap x lo up) e).\n"
+            "Eval vm_compute in (map agree cases).\n")
+    ok, out = common.coq_eval("C04_periodic_f64", text)
+    bad = None
+    if ok:
+        res = common.parse_eval_lists(out)
+        flags = re.findall(r"true|false", res[0]) if res else []
+        if len(flags) != len(rows):
+            ok = False
+            out = f"expected {len(rows)} results, got {len(flags)}"
+        else:
+            for fl, r in zip(flags, rows):
+                if fl != "true":
+                    bad = r
+                    break
+    ctx.oblig("correspondence:binary64-model-vs-impl:periodic_forward", ok and bad is None,
+              f"first differing case (x, lower, upper, implementation, namespace, style): {bad!r}" if bad else (out[-400:] if not ok else ""))
+    ctx.extra["periodic_binary64_cases"] = len(rows)
